@@ -399,3 +399,79 @@ contract("src/transcript_printer.py:GFFPrinter.dump#gene_regions",
              "all(gene_info_dict[g][2][0] <= gene_info_dict[g][2][1] for g in gene_info_dict)",
              "all(gene_info_dict[g][0] == gene_info.chr_id for g in gene_info_dict)"]}},
          canary="len(result) == 0")
+
+
+# ---- reference transcripts are loaded with exactly their annotated exons (the source of every verbatim copy later on) ---------------------
+class _F:
+    def __init__(self, id, ft, start, end):
+        self.id, self.featuretype, self.start, self.end = id, ft, start, end
+
+
+class _StubAnnotation:
+    """what GeneInfo.set_introns_and_exons uses of a gffutils database: children(feature, featuretype=, order_by='start')"""
+    def __init__(self, kids):
+        self.kids = kids
+
+    def children(self, feature, featuretype=None, order_by=None):
+        fts = featuretype if isinstance(featuretype, tuple) else ((featuretype,) if featuretype else None)
+        out = [k for k in self.kids.get(feature.id, []) if fts is None or k.featuretype in fts]
+        return sorted(out, key=lambda k: k.start) if order_by == "start" else list(out)
+
+
+def _loading_case(seed):
+    import random
+    rng = random.Random(seed)
+    gi_mod = native.repo_import("src/gene_info.py")
+    kids, want, genes = {}, {}, []
+    for g in range(rng.randint(1, 2)):
+        gene = _F("G%d" % g, "gene", 1, 10 ** 6)
+        genes.append(gene)
+        kids[gene.id] = []
+        for t in range(rng.randint(1, 3)):
+            tr = _F("G%d.t%d" % (g, t), rng.choice(["transcript", "mRNA"]), 1, 10 ** 6)
+            kids[gene.id].append(tr)
+            ex, p = [], rng.randint(1, 500)
+            for _ in range(rng.randint(1, 5)):
+                a = p + rng.choice([1, 1, 2, 50, 300])           # touching (gap 0) and near-touching exon records are legal GTF
+                b = a + rng.randint(0, 200)
+                ex.append((a, b))
+                p = b
+            want[tr.id] = ex
+            recs = [_F("%s.e%d" % (tr.id, k), "exon", a, b) for k, (a, b) in enumerate(ex)]
+            recs += [_F("%s.cds" % tr.id, "CDS", ex[0][0], ex[0][1]), _F("%s.sc" % tr.id, "start_codon", ex[0][0], ex[0][0] + 2)]
+            rng.shuffle(recs)
+            kids[tr.id] = recs
+    g = gi_mod.GeneInfo.__new__(gi_mod.GeneInfo)
+    g.db, g.gene_db_list = _StubAnnotation(kids), genes
+    g.intron_profiles, g.exon_profiles = gi_mod.FeatureProfiles(), gi_mod.FeatureProfiles()
+    introns, exons = g.set_introns_and_exons()
+    problems = []
+    for tid, ex in want.items():
+        if exons.get(tid) != ex:
+            problems.append("%s: annotated exons %s loaded as %s" % (tid, ex, exons.get(tid)))
+        elif introns.get(tid) != [(ex[i][1] + 1, ex[i + 1][0] - 1) for i in range(len(ex) - 1) if ex[i + 1][0] > ex[i][1] + 1]:
+            problems.append("%s: introns %s do not lie between the exons %s" % (tid, introns.get(tid), ex))
+    return problems
+
+
+def replay_loading(d):
+    p = _loading_case(d["inputs"]["seed"])
+    return (not p), "seed %s: %s" % (d["inputs"]["seed"], p or "exons loaded verbatim")
+
+
+@bounded("C03.reference_loading", ["C03"], shards=4, note="the real GeneInfo.set_introns_and_exons over a stub annotation database (1-2 genes, 1-3 "
+         "transcripts of 1-5 exon records each - touching and near-touching exons, CDS / codon records mixed in, records in any order): every "
+         "transcript is loaded with exactly its annotated exon records in coordinate order")
+def c03_loading(tier, rng):
+    n = 300 if tier == "quick" else 20000
+    base = rng.randrange(10 ** 9)
+    for k in range(n):
+        try:
+            p = _loading_case(base + k)
+        except Exception as e:
+            p = ["exception %s: %s" % (type(e).__name__, e)]
+        if p:
+            return {"cases": k + 1, "bound": "%d annotations" % n, "violations": [{
+                "obligation": "C03.reference_loading", "inputs": {"seed": base + k}, "observed": p[:3],
+                "required": "reference exons loaded verbatim", "replay_call": "contracts.c_models:replay_loading"}]}
+    return {"cases": n, "bound": "%d random annotations" % n, "violations": [], "samples": [{"seed": base}]}
